@@ -690,6 +690,47 @@ def directed_scenarios(base_id):
     return out
 
 
+def check_fetch_dispatch(ck):
+    """the translated fetchDispatch (evaluated inside Coq) against the real Fetcher._proc_fetch_request for every
+    error code -1..100 with and without a reset policy, plus the property's clause on the real method: no error
+    reply but OFFSET_OUT_OF_RANGE may move the position"""
+    from common import run_impl
+    codes = list(range(-1, 101))
+    combos = [True, False]
+    cases = [{"code": c, "has_policy": p} for p in combos for c in codes]
+    impl = run_impl("c03_dispatch_impl.py", {"cases": cases}, timeout=300)["out"]
+    zl = "; ".join(f"({c})" if c < 0 else str(c) for c in codes)
+    body = "\n".join(f"Eval vm_compute in (map (fun c => fetchDispatch c {str(p).lower()}) [{zl}])." for p in combos) + "\n"
+    okc, out = ck.coq_eval("c03_dispatch", ["DispatchActs", "FetchDispatch"], body)
+    vals = [parse_coq_value(v) for v in parse_eval_outputs(out)] if okc else []
+    if len(vals) != len(combos):
+        ck.obligation("correspondence:fetch-dispatch-evaluated-in-coq", False, out[-400:])
+        return
+
+    def flat(x):
+        if isinstance(x, (list, tuple)) and len(x) == 2 and x[0] == "ctor":
+            return flat(x[1])
+        return x if isinstance(x, str) else str(x)
+    mism = 0
+    k = 0
+    for p, col in zip(combos, vals):
+        for c, m in zip(codes, col):
+            r = impl[k]
+            k += 1
+            model = [flat(a) for a in m]
+            if model != r["acts"] or r["exc"]:
+                mism += 1
+                if mism <= 3:
+                    ck.obligation(f"correspondence:fetch-dispatch:{c}:{p}", False, f"model {model} vs real {r}")
+            if c not in (0, 1) and not r["position_kept"]:
+                ck.violation(f"a Fetch reply with error code {c} made the consumer give up its position "
+                             f"(only OFFSET_OUT_OF_RANGE may): handler did {r['acts']}",
+                             {"code": c, "has_policy": p, "observed": r}, signature=f"fetch-dispatch-moves-position:{c}")
+    ck.obligation("correspondence:fetch-dispatch-model-vs-real-handler", mism == 0, f"{mism} differ of {len(cases)}")
+    ck.trusted.append("translator/dispatch2gallina.py for the per-partition error chain of Fetcher._proc_fetch_request "
+                      "(validated per run against the real method on a stub, codes -1..100 x reset policy)")
+
+
 def run(ck: Check):
     ck.trusted += [
         "Coq 8.16.1 kernel; vm_compute for Examples and for replaying recorded traces",
@@ -716,8 +757,10 @@ def run(ck: Check):
                       "delivered; distinct by (projected trace, log)")
     import time as _t
     t0 = _t.time()
+    ck.regenerate(["FetchDispatch"])
     ok_p, _ = ck.coq_props("C03")
     ck.log(f"proofs ok={ok_p} ({_t.time() - t0:.0f}s)")
+    check_fetch_dispatch(ck)
 
     rng = random.Random(ck.seed * 7919 + 3)
     n = ck.n(200, 4000)
